@@ -15,6 +15,26 @@ CLAIMED = {
         'specification\'s exact solution.  Larger networks (up to 8 nodes / 14 branches) are covered code->spec: planted exact solutions are judged by TLC '
         '(IsSolution + topological well-posedness) and compared with the code.',
    ref='DESIGN.md §6 C01', technique='TLA+ spec + TLC bounded model checking; spec->code scenario replay; code->spec trace validation'),
+ 'C04': dict(
+   text='TLC checks on every well-posed network with sources in the bound that scaling the sources scales the solution, that deactivating sources with the '
+        'specification\'s ZeroV/ZeroI (the exact semantics of short_circuitify_voltage_sources / open_circuitify_current_sources incl. keep lists) leaves the MNA matrix '
+        'unchanged, that the solution is the sum of single-source solutions and that all-sources-off gives zero.  Every scenario is replayed: the library\'s own zeroing '
+        'functions are applied with real keep lists, their output is compared (electrically) with ZeroV/ZeroI and solved against the exact expectation; the sum relation is '
+        'also checked between code runs; scaled networks are rebuilt and compared with a*solution, |a|^2*power.',
+   ref='DESIGN.md §6 C04', technique='TLA+ spec + TLC bounded model checking; spec->code scenario replay'),
+ 'C06': dict(
+   text='PortZ in the TLA+ specification is the unit-test-current definition (sources deactivated, unconnected parts dropped). TLC checks symmetry, zero across ideal '
+        'voltage sources, series/parallel composition, the Thevenin voltage-divider law for several loads and Isc = Voc/Zth on every network in the bound; every scenario '
+        'is replayed against open_circuit_impedance, element_impedance, open_circuit_voltage, short_circuit_current, Thevenin/Norton equivalents for every ordered node pair, '
+        'element and reference node (and Circuit.impedance.* over frequency sweeps).',
+   ref='DESIGN.md §6 C06', technique='TLA+ spec + TLC bounded model checking; spec->code scenario replay'),
+ 'C16': dict(
+   text='Each transformer of Network/transformers.py has a TLA+ operator (RemoveOpen, RemoveId, ContractShorts as node classes = set of allowed results, ZeroV/ZeroI '
+        'compositions). TLC checks on every network in the bound that each is an electrical identity (simplified network well posed, same solution on all survivors, '
+        'reference switching = common shift). The real functions are replayed for every keep list / element / reference; results are checked for membership in the allowed '
+        'set (surviving ids, orientation, untouched element objects, merges only within short classes, no non-exempt short left when shorts are disjoint), solved and compared, '
+        'and inputs/keep lists must be unchanged.',
+   ref='DESIGN.md §6 C16', technique='TLA+ spec + TLC bounded model checking; spec->code scenario replay with relational postcondition'),
 }
 
 PENDING_REASON = 'check not built yet in this round (planned: TLA+ model + conformance replay, see DESIGN.md §6); no claim is made until it exists'
